@@ -58,6 +58,8 @@ PROPS["C12"] = {
             "TestC12Decode": T(8000, 160000),
             "FuzzC12Decode": FUZZ(90, configs=["default"]),
             "TestC12DecodeList": LIST(),
+            "TestC12KeyGen": T(3000, 60000),
+            "TestC12NilEntropy": LIST(),
         },
     }],
 }
